@@ -201,3 +201,46 @@ C16 = {
 
 def run_c16(prop, tier, replay=None):
     return run_component(prop, tier, replay, C16)
+
+
+# ------------------------------------------------------------------ C17 lossy ring / striped
+
+def _ring_cfg(adders, nadd, slots):
+    return ("SPECIFICATION Spec\nCONSTANTS\n Adders = {%s}\n NAdd = %d\n Slots = %d\n NDrain = 1\n"
+            "INVARIANTS NoDup OnlyRecorded Bounded Complete\n" % (", ".join(map(str, range(1, adders + 1))), nadd, slots))
+
+
+def _ring_hook(label):
+    if label in ("A0", "D0"):
+        return "start"
+    if label == "D1":
+        return None
+    return label.replace("_", ".")
+
+
+def _ring_name(pid):
+    return "c" if pid == 0 else "a%d" % pid
+
+
+C17 = {
+    "pkg": "lossy", "test": "TestVerifRing", "mc_module": "Ring", "judge": "RingHist",
+    "mc_instances": lambda quick: ([("a2n2s2", _ring_cfg(2, 2, 2)), ("a2n3s4", _ring_cfg(2, 3, 4))] if quick else
+                                   [("a3n2s2", _ring_cfg(3, 2, 2)), ("a2n3s4", _ring_cfg(2, 3, 4)), ("a2n4s2", _ring_cfg(2, 4, 2))]),
+    "sim_instances": lambda quick: [
+        ("s16a", _ring_cfg(2, 12, 16), 30 if quick else 300, {"level": "ring", "adders": 2, "nadd": 12, "maxlen": 1}, _ring_name, _ring_hook),
+        ("s16b", _ring_cfg(3, 8, 16), 30 if quick else 300, {"level": "ring", "adders": 3, "nadd": 8, "maxlen": 1}, _ring_name, _ring_hook)],
+    "scenarios": lambda quick, seed: (
+        [{"level": "ring", "adders": 1 + j % 4, "nadd": 6 + 5 * (j % 5), "maxlen": 1, "policy": "pct" if j % 2 else "random",
+          "seed": seed * 100000 + j, "script": []} for j in range(40 if quick else 800)] +
+        [{"level": "striped", "adders": 2 + j % 5, "nadd": 10 + 7 * (j % 4), "maxlen": [1, 2, 4, 8][j % 4], "policy": ["pct", "random", "free", "free"][j % 4],
+          "seed": seed * 100000 + 50000 + j, "script": []} for j in range(60 if quick else 1200)]),
+    "explanation": "states/transitions: TLC totals for Ring.tla instances (NoDup, OnlyRecorded, Bounded, Complete); "
+                   "traces_validated_against_impl: histories of the real ring / striped buffer judged by RingHist.tla",
+    "assumptions": ["the model ring has 2-4 slots for exhaustive checking and 16 (as the code) for schedule generation",
+                    "stripe creation and table expansion are exercised on the real Striped buffer only (gate-scheduled and free running)",
+                    "one draining consumer, as under the eviction mutex"],
+}
+
+
+def run_c17(prop, tier, replay=None):
+    return run_component(prop, tier, replay, C17)
